@@ -1427,8 +1427,12 @@ class Module:
             self.imports_math = False
 
 
+LAST_TRANSLATORS = {}       # qualified name -> HeapFn of the last translate_spec call (read by the self-test)
+
+
 def translate_spec(repo, spec):
     """-> (coq text, [{"function", "sha1", "source"}]); raises Unsupported."""
+    LAST_TRANSLATORS.clear()
     path = os.path.join(repo, spec["source"])
     src = open(path).read()
     tree = ast.parse(src, filename=path)
@@ -1449,6 +1453,7 @@ def translate_spec(repo, spec):
         ft = HeapFn(mod, cls or None, name, fspec, node, done)
         fts.append((ft, node, sha))
         done[qual] = ft
+        LAST_TRANSLATORS[qual] = ft
     # the set of written fields is known only after every function has been looked at: translate now
     for ft, node, sha in fts:
         ft.wfields, ft.rfields = ft._field_use()
@@ -1502,6 +1507,9 @@ def translate_spec(repo, spec):
                     raise Unsupported("internal: operator after an oracle in the Section context")
                 else:
                     args.append(inst)
+        # what the self-test needs to call the function: the instance (if any) and the Section variables left open
+        ft.inst_name = ft.coq + "_f" if (targs or args) else ft.coq
+        ft.inst_rest = [nm for nm, ty, inst in cvars if nm in toks and inst is None]
         if targs or args:
             insts.append("Definition %s_f := @%s %s." % (ft.coq, ft.coq, " ".join(targs + args)))
     head = ("(* GENERATED by tools/py2coq_heap.py from %s - never edit, never commit.\n"
